@@ -221,6 +221,39 @@ theorem sqEuclid_scale [CommRing K] (c : K) (X : Mat n D K) :
   rw [← sumFin_mul_left]
   exact sumFin_congr fun t => by ring
 
+/-! ### the local kernel expressions under a translation -/
+
+theorem kernelSqDist_gram [CommRing K] (X : Mat n D K) (l r : Fin n) :
+    kernelSqDist (gram X) l r = sqEuclid X l r := by
+  rw [sqEuclid_eq_gram]
+  unfold kernelSqDist
+  push_cast
+  ring
+
+theorem kernelSqDist_translate [CommRing K] (X : Mat n D K) (t : Vec D K) (l r : Fin n) :
+    kernelSqDist (gram (translate X t)) l r = kernelSqDist (gram X) l r := by
+  rw [kernelSqDist_gram, kernelSqDist_gram, sqEuclid_translate]
+
+theorem lleLocalGram_translate [CommRing K] {k : Nat} (X : Mat n D K) (t : Vec D K) (q : Fin n) (nb : Fin k → Fin n) :
+    lleLocalGram (gram (translate X t)) q nb = lleLocalGram (gram X) q nb := by
+  funext a b
+  unfold lleLocalGram
+  rw [gram_translate, gram_translate, gram_translate, gram_translate]
+  ring
+
+theorem localCenteredGram_translate [Field K] [CharZero K] {k : Nat} (X : Mat n D K) (t : Vec D K)
+    (nb : Fin k → Fin n) :
+    localCenteredGram (gram (translate X t)) nb = localCenteredGram (gram X) nb := by
+  unfold localCenteredGram
+  have h : (fun a b => gram (translate X t) (nb a) (nb b))
+      = fun a b => gram X (nb a) (nb b) + (sumFin D fun c => X (nb a) c * t c) + (sumFin D fun c => X (nb b) c * t c)
+          + sumFin D fun c => t c * t c := by
+    funext a b
+    exact gram_translate X t (nb a) (nb b)
+  rw [h]
+  exact centerMatrix_add_rank (fun a b => gram X (nb a) (nb b)) (fun a => sumFin D fun c => X (nb a) c * t c)
+    (sumFin D fun c => t c * t c)
+
 /-! ### eigen-systems -/
 
 theorem isEigSys_relabel [CommSemiring K] (π : Equiv.Perm (Fin n)) {B : Mat n n K} {V : Mat n d K} {lam : Vec d K}
